@@ -1651,6 +1651,20 @@ class Builder:
         res = self.call_closure(clo, [r, t], {}, runm.node)
         return res, op, (r, t)
 
+    def op_method(self, objn, mname, label=''):
+        """Operation: call a public method of an instance with fresh symbolic arguments (a setter)."""
+        cls = objn.val.cls
+        m = cls.find_method(mname)
+        if m is None:
+            raise AnalysisError('no %s on %s' % (mname, cls.fullname))
+        op = self.begin_op('%s.%s%s' % (cls.name, mname, label), objn.val.oid)
+        names = [a.arg for a in m.node.args.args][1:]
+        args = [self.mk('input', '%s%s' % (nm, label)) for nm in names]
+        self.frame = Frame(None, cls.module, {}, None)
+        clo = Closure(m, m.node, None, self_node=objn, cls=m.cls, module=m.module)
+        res = self.call_closure(clo, args, {}, m.node)
+        return res, op, tuple(args)
+
     def run_solver(self, cls, run=True, point_name='r', time_name='t'):
         """Symbolic instance of solver class `cls` (every key of `parameters`
         is a Param node), constructor chain, then _run(points, t)."""
